@@ -712,8 +712,26 @@ func c19ParseHalf(e *env, nBundles int) {
 		crlf := e.rng.Chance(20)
 		noTrail := e.rng.Chance(25)
 		pat := c19Names[e.rng.Intn(len(c19Names))]
+		// what precedes the commands: multi-byte characters (a line computed from rune offsets goes wrong after them) and,
+		// in some bundles, a long run of lines (an offset that is short by one byte per line only shows far down the file)
+		lead := ""
+		if e.rng.Chance(40) {
+			lead = "// Überschrift – 10 € ✓ 日本語\n/* «ça» 𝔘𝔫𝔦\n   äöüß */\n"
+			e.res.Histogram["parse:bundles with multi-byte characters before the commands"]++
+		}
+		if e.rng.Chance(15) {
+			for k := 40 + e.rng.Intn(160); k > 0; k-- {
+				lead += e.rng.Pick([]string{"// padding line\n", "\n", "// Füllzeile – €\n", "/* one-line block comment */\n"})
+			}
+			e.res.Histogram["parse:bundles with long files"]++
+		}
+		padLines := strings.Count(lead, "\n")
+		if crlf {
+			e.res.Histogram["parse:bundles with CRLF line ends"]++
+		}
 		for fi := range files {
 			files[fi].Name = fmt.Sprintf(pat, fi)
+			files[fi].Text = lead + files[fi].Text
 			if crlf {
 				files[fi].Text = strings.ReplaceAll(files[fi].Text, "\n", "\r\n")
 			}
@@ -727,6 +745,9 @@ func c19ParseHalf(e *env, nBundles int) {
 		for fi, f := range files {
 			m := c19Analyze(f.Text)
 			for l := 1; l <= m.nLines(); l++ {
+				if l <= padLines && !e.rng.Chance(4) {
+					continue // the padding: a fault on one line in 25
+				}
 				for _, ft := range c19FaultsAt(e.rng, f.Name, m, l) {
 					faults = append(faults, ft)
 					cases = append(cases, c19ParseCase{Files: []srcFile{{f.Name, ft.Text}}})
@@ -1074,10 +1095,35 @@ func (g *c19RGen) wrapper(d int) {
 
 // failing commands for call depth 0; multi-line ones fail on their first line
 var c19FailPrints = []string{"{$missing}", "{1 < 'a'}", "{$missing.x}", "{$s|nosuchdirective}", "{$s|truncate:'q'}", "{length($a)}", "{nosuchfn($a)}",
-	"{print $missing}", "{$a + $missing}", "{$m.k.z}", "{'a' - 1}", "{$list[$missing]}", "{$a}{$missing}", "{true ? -'s' : 1}"}
+	"{print $missing}", "{$a + $missing}", "{$m.k.z}", "{'a' - 1}", "{$list[$missing]}", "{$a}{$missing}", "{true ? -'s' : 1}",
+	// failures that are Go run-time panics (runtime.Error), not s.errorf: integer modulo by zero, a failed type assertion in the
+	// ModNode clause (errRecover's runtime.Error branch at depth 0, evalCall's re-panic below), a nil dereference inside an
+	// installed function and an index out of range inside an installed directive (recovered by evalFunc / evalPrint), the
+	// library's own functions and directives handed a value of the wrong kind
+	"{$a % 0}", "{$a % 2.5}", "{$s % 2}", "{7 % ($a - 1)}", "{print $m.k % 0}", "{$a}{$a % 0}", "{c19NilDeref($a)}", "{c19NilDeref(1) + 1}",
+	"{$s|c19Index}", "{$a|c19Index|escapeUri}", "{keys($s)}", "{$s|insertWordBreaks:'x'}", "{augmentMap($m, $a)}"}
 var c19FailOther = []string{"{if 1 < 'a'}x{/if}", "{foreach $q in $a}x{/foreach}", "{switch 1 < 'a'}{default}x{/switch}", "{call .ok data=\"$a\" /}",
 	"{call .ok}{param s: 1 < 'a' /}{/call}", "{if $missing.x}\nx\n{/if}", "{css $missing.x, foo}",
-	"{foreach $q in $missing.x}\nx\n{ifempty}\ny\n{/foreach}", "{let $zz9: $missing.x /}{$zz9}"}
+	"{foreach $q in $missing.x}\nx\n{ifempty}\ny\n{/foreach}", "{let $zz9: $missing.x /}{$zz9}",
+	"{if $a % 0}x{/if}", "{let $zz8: $a % 0 /}{$zz8}", "{call .ok}{param s: $a % 2.5 /}{/call}", "{switch $a % 0}{default}x{/switch}",
+	"{foreach $q in $list[$a % 0]}\nx\n{/foreach}", "{if c19NilDeref($a)}\nx\n{/if}", "{call .ok}{param s: c19NilDeref($a) /}{/call}"}
+
+// c19IsRuntime: the failing command fails through a Go run-time panic
+func c19IsRuntime(cmd string) bool {
+	return strings.Contains(cmd, " % ") || strings.Contains(cmd, "c19NilDeref") || strings.Contains(cmd, "c19Index")
+}
+
+type c19T struct{ v data.Value }
+
+func c19Install() {
+	soyhtml.Funcs["c19NilDeref"] = soyhtml.Func{Apply: func(a []data.Value) data.Value {
+		var p *c19T
+		return p.v // nil pointer dereference: a runtime.Error inside an installed function
+	}, ValidArgLengths: []int{1}}
+	soyhtml.PrintDirectives["c19Index"] = soyhtml.PrintDirective{Apply: func(v data.Value, a []data.Value) data.Value {
+		return a[len(a)+1] // index out of range: a runtime.Error inside an installed directive
+	}, ValidArgLengths: []int{0}}
+}
 
 // the ways of calling the first template of the failing chain; every form has the {call on its first line
 func c19CallForms(target string) []string {
@@ -1101,6 +1147,7 @@ type c19RenderCase struct {
 	ExpectFile string    `json:"expect_file"`
 	ExpectLine int       `json:"expect_line"`
 	Shape      string    `json:"shape"`
+	Runtime    bool      `json:"runtime_panic,omitempty"` // the failure is a Go run-time panic inside the renderer, a function or a directive
 }
 
 func c19Data() data.Map {
@@ -1179,25 +1226,81 @@ func c19ChainFiles(r *hx.Rand, depth int, failPrint string, shared bool) []srcFi
 	return files
 }
 
+// c19Variant: what surrounds the failing command, chosen per case.  Positions are BYTE offsets into the text as it
+// was given: a line table built from rune offsets, or from a text with normalised line ends, goes wrong only when
+// multi-byte characters / CRLF line ends precede the failing command, and the further down the file the more.
+type c19Variant struct {
+	nonASCII bool // multi-byte characters in comments, soydoc and template text before (and after) the failing command
+	crlf     bool // every file of the bundle has CRLF line ends
+	long     int  // that many further lines before the entry template
+}
+
+var c19NonASCIILead = []string{"// führender Kommentar – 10 € ✓\n", "\n", "/* Überschrift: «日本語のテキスト»\n   äöüß ĀāĒē 𝔘𝔫𝔦 */\n", "// ça coûte 5 £, naïve façade\n"}
+var c19NonASCIIText = []string{"Größe: 10 € ✓", "日本語のテキスト", "naïve façade – «ça»", "Ж𝔘é"}
+
+func (v c19Variant) String() string {
+	return fmt.Sprintf("nonascii=%v crlf=%v long=%d", v.nonASCII, v.crlf, v.long)
+}
+
+func (v c19Variant) lineEnds(text string) string {
+	if v.crlf {
+		return strings.ReplaceAll(text, "\n", "\r\n")
+	}
+	return text
+}
+
 // c19EntryFile assembles the entry file from the generated body; returns the text and the line of body line index i
-func c19EntryFile(r *hx.Rand, body []string, lead, pre int) (string, int) {
+func c19EntryFile(r *hx.Rand, body []string, lead, pre int, v c19Variant) (string, int) {
 	var sb strings.Builder
 	for k := 0; k < lead; k++ {
-		sb.WriteString([]string{"// leading comment\n", "\n", "/* leading\n block comment */\n"}[k%3])
+		if v.nonASCII {
+			sb.WriteString(c19NonASCIILead[k%len(c19NonASCIILead)])
+		} else {
+			sb.WriteString([]string{"// leading comment\n", "\n", "/* leading\n block comment */\n"}[k%3])
+		}
+	}
+	if v.nonASCII && lead == 0 {
+		sb.WriteString(c19NonASCIILead[r.Intn(len(c19NonASCIILead))])
 	}
 	sb.WriteString("{namespace c19.e}\n\n")
 	for k := 0; k < pre; k++ {
 		sb.WriteString(fmt.Sprintf("/** a template before the entry template */\n{template .pre%d}\npre\n{$ij.x ?: ''}\n{/template}\n\n", k))
 	}
-	sb.WriteString(c19ParamDoc)
+	if v.long > 0 {
+		sb.WriteString("/** a long template before the entry template */\n{template .prelong}\n")
+		for k := 0; k < v.long; k++ {
+			switch {
+			case v.nonASCII && k%3 == 0:
+				sb.WriteString(c19NonASCIIText[r.Intn(len(c19NonASCIIText))] + "\n")
+			case k%7 == 3:
+				sb.WriteString("{$ij.x ?: ''}\n")
+			case k%5 == 4:
+				sb.WriteString("\n")
+			default:
+				sb.WriteString("a line of filler text\n")
+			}
+		}
+		sb.WriteString("{/template}\n\n")
+	}
+	if v.nonASCII {
+		sb.WriteString(strings.Replace(c19ParamDoc, "/**\n", "/**\n * Die Einstiegsvorlage – 説明 (€)\n", 1))
+	} else {
+		sb.WriteString(c19ParamDoc)
+	}
 	sb.WriteString("{template .entry}\n")
 	sb.WriteString(c19UseAll + "\n")
 	first := 1 + strings.Count(sb.String(), "\n")
 	for _, l := range body {
+		if v.nonASCII {
+			switch l {
+			case "some text", "not here", "nor here", "Hello", "none", "many":
+				l = c19NonASCIIText[r.Intn(len(c19NonASCIIText))]
+			}
+		}
 		sb.WriteString(l + "\n")
 	}
 	sb.WriteString("{/template}\n\n/**\n * @param? s\n * @param? u\n */\n{template .ok}\nok{$s ?: ''}{$u ?: ''}\n{/template}\n")
-	return sb.String(), first
+	return v.lineEnds(sb.String()), first
 }
 
 func c19RenderCases(e *env, nShapes int) []c19RenderCase {
@@ -1245,9 +1348,19 @@ func c19RenderCases(e *env, nShapes int) []c19RenderCase {
 						body = append(body, "{$a}")
 					}
 				}
-				text, first := c19EntryFile(e.rng, body, lead, pre)
+				v := c19Variant{nonASCII: e.rng.Chance(45), crlf: e.rng.Chance(30)}
+				if e.rng.Chance(25) {
+					v.long = 40 + e.rng.Intn(220)
+				}
+				text, first := c19EntryFile(e.rng, body, lead, pre, v)
 				files := []srcFile{{entryName, text}}
 				chain := c19ChainFiles(e.rng, depth, failPrint, shared)
+				for ci := range chain {
+					if v.nonASCII {
+						chain[ci].Text = "// Aufgerufene Vorlage – ✓\n" + strings.ReplaceAll(chain[ci].Text, "filler line\n", "Füllzeile – €\n")
+					}
+					chain[ci].Text = v.lineEnds(chain[ci].Text)
+				}
 				// the entry file is not always the first file of the bundle
 				if e.rng.Bool() {
 					files = append(chain, files...)
@@ -1256,6 +1369,7 @@ func c19RenderCases(e *env, nShapes int) []c19RenderCase {
 				}
 				// files sharing the entry file's namespace, added before or after everything else
 				for _, sib := range c19Siblings(e.rng) {
+					sib.Text = v.lineEnds(sib.Text)
 					if e.rng.Bool() {
 						files = append([]srcFile{sib}, files...)
 					} else {
@@ -1263,7 +1377,7 @@ func c19RenderCases(e *env, nShapes int) []c19RenderCase {
 					}
 				}
 				out = append(out, c19RenderCase{Kind: "render", Files: files, Entry: "c19.e.entry", Depth: depth, Fail: cmd + " // " + failPrint,
-					ExpectFile: entryName, ExpectLine: first + failIdx, Shape: fmt.Sprintf("shape%d/slot%d", s, si)})
+					ExpectFile: entryName, ExpectLine: first + failIdx, Shape: fmt.Sprintf("shape%d/slot%d %s", s, si, v), Runtime: c19IsRuntime(cmd) || (depth > 0 && c19IsRuntime(failPrint))})
 			}
 		}
 	}
@@ -1280,6 +1394,14 @@ func c19RenderReal(e *env, c c19RenderCase, idx int) (rr c19RenderObs) {
 	var reg, err = b.Compile()
 	cls := fmt.Sprintf("render:depth%d", c.Depth)
 	e.res.Count(fmt.Sprint(c.Files), true, cls)
+	for _, k := range []string{"nonascii=true", "crlf=true"} {
+		if strings.Contains(c.Shape, k) {
+			e.res.Histogram["render:variant:"+k]++
+		}
+	}
+	if !strings.HasSuffix(c.Shape, "long=0") {
+		e.res.Histogram["render:variant:long file"]++
+	}
 	if err != nil {
 		e.res.Fail(hx.Violation{Kind: "oracle", What: "a generated bundle of the render half is rejected by the compiler (harness defect or compiler defect)", Case: c, Observed: err.Error()}, "")
 		return rr
@@ -1299,9 +1421,18 @@ func c19RenderReal(e *env, c c19RenderCase, idx int) (rr c19RenderObs) {
 		e.res.Fail(hx.Violation{Kind: "oracle", What: "a panic escaped Render instead of a positioned error", Case: c, Observed: errStr(rerr)}, "")
 		return rr
 	}
+	if c.Runtime {
+		e.res.Histogram[fmt.Sprintf("render:go-runtime-panic:depth%d", c.Depth)]++
+	}
+	// every render error must BE positioned: the value itself carries file and line (a text that merely looks positioned does not count)
 	fp := errortypes.ToErrFilePos(rerr)
-	if fp == nil {
-		e.res.Fail(hx.Violation{Kind: "oracle", What: "the render error carries no file position", Case: c, Observed: errStr(rerr)}, "")
+	if fp == nil || !errortypes.IsErrFilePos(rerr) {
+		what := "the render error carries no file position (errortypes.IsErrFilePos is false: File()/Line()/Col() are not available)"
+		if c.Runtime {
+			what = "a failure through a Go run-time panic (modulo by zero, failed type assertion, nil dereference in a function, index out of range in a directive) is returned without file position (errortypes.IsErrFilePos is false)"
+		}
+		e.res.Histogram[fmt.Sprintf("deviation:render:not-positioned:depth%d", c.Depth)]++
+		e.res.Fail(hx.Violation{Kind: "oracle", What: what, Case: c, Expected: fmt.Sprintf("an ErrFilePos %s:%d", c.ExpectFile, c.ExpectLine), Observed: firstN(errStr(rerr), 300)}, "")
 		return rr
 	}
 	obsFile, obsLine := fp.File(), fp.Line()
@@ -1473,17 +1604,20 @@ func runC19(e *env) {
 	e.res.Rule = "parse half: valid generated bundles (command grammar, commands spread over lines, six file-name shapes, LF/CRLF, with/without final newline) x every line x fault classes {illegal character in a tag, stray } in text, unterminated string/comment/soydoc/tag, unknown command, end of input inside a template, fault inside a quoted attribute expression}; parse.SoyFile (6%: Bundle.Compile) in a worker subprocess. Render half: entry templates nesting every block command x every executed line x call depth 0-3 x failing command; robfig/soy Render vs the oracle and vs Interp.render's file/line. Distinct by source text."
 	c19pool = c19NewPool(e)
 	defer c19pool.close(e)
+	c19Install()
 	if e.replay != "" {
 		c19Replay(e)
 		return
 	}
+	// the render half first: the list of recorded violations is capped, and a defect that shows in both halves (positions that
+	// are not byte offsets into the text as given) is best reported with a rendering that names the wrong line
 	t0 := time.Now()
-	c19ParseHalf(e, 60*e.scale)
-	t1 := time.Now()
 	cases := c19RenderCases(e, 150*e.scale)
 	c19RunRenders(e, cases)
 	c19Duplicates(e, 6*e.scale)
-	e.res.Note("timing: parse half %.1fs, render half %.1fs, %d workers", t1.Sub(t0).Seconds(), time.Since(t1).Seconds(), c19Workers())
+	t1 := time.Now()
+	c19ParseHalf(e, 60*e.scale)
+	e.res.Note("timing: render half %.1fs, parse half %.1fs, %d workers", t1.Sub(t0).Seconds(), time.Since(t1).Seconds(), c19Workers())
 }
 
 func c19Replay(e *env) {
